@@ -31,9 +31,12 @@ class FxModel(Model, IDecodable):
         return m
 
 
+RAN = []
+
+
 class FxSystem(System, IDecodable):
     def execute(self):
-        pass
+        RAN.append(self.id)
 
     @staticmethod
     def decode(params):
